@@ -72,7 +72,13 @@ class OffsetDateTime {
           TimeOffset timeOffset) {
       if (timeOffset.isError()) return forError();
       if (epochSeconds != LocalDate::kInvalidEpochSeconds) {
-        epochSeconds += timeOffset.toSeconds();
+        // The local time must also be representable as an acetime_t.
+        int32_t offsetSeconds = timeOffset.toSeconds();
+        if ((offsetSeconds > 0 && epochSeconds > INT32_MAX - offsetSeconds)
+            || (offsetSeconds < 0 && epochSeconds <= INT32_MIN - offsetSeconds)) {
+          return forError();
+        }
+        epochSeconds += offsetSeconds;
       }
       auto ldt = LocalDateTime::forEpochSeconds(epochSeconds);
       return OffsetDateTime(ldt, timeOffset);
